@@ -76,7 +76,7 @@ TreeInsert(S, d, root, val, oversized) ==
 
 \* page holding the first live cell of the tree that satisfies P (scan order), 0 if none
 FirstPageWith(c, d, root, P(_)) ==
-  LET pgs == ChainPagesR(c, d, Leftmost(c, d, root, 6), 40)
+  LET pgs == ChainPagesR(c, d, Leftmost(c, d, root, DepthFuel), ChainFuel)
       hit == SelectSeq(pgs, LAMBDA p : p # -1 /\ \E i \in 1..Len(Rd(c, d, p).cells) : ~Rd(c, d, p).cells[i].d /\ P(Rd(c, d, p).cells[i]))
   IN IF hit = <<>> THEN 0 ELSE hit[1]
 
@@ -124,7 +124,7 @@ UpdateRow(S, d, t, key, v) ==
 DeleteRow(S, d, t, key) ==
   LET root == RootOf(S, d, t) IN
   IF root = 0 THEN [S |-> S, recs |-> <<>>, err |-> "notable"] ELSE
-  LET p == FindLeaf(S.c, d, root, key, 6)
+  LET p == FindLeaf(S.c, d, root, key, DepthFuel)
       n == Rd(S.c, d, p)
   IN IF n.kind # "L" \/ ~(\E i \in 1..Len(n.cells) : n.cells[i].k = key /\ ~n.cells[i].d)
      THEN [S |-> S, recs |-> <<>>, err |-> "norow"] ELSE
